@@ -834,15 +834,17 @@ class Interferogram(RichData):
         else:
             tb = slice(top, -bottom)
 
-        self.data = self.data[lr, tb]
-        # now cropped data, need to adjust coords
-        # do nothing if they have not been computed
+        # crop the coords along with the data; do nothing if they have not been
+        # computed.  They go first: coords of another shape than the new data
+        # are dropped when the data is replaced
         if self._x is not None:
             self.x = self.x[lr, tb]
             self.y = self.y[lr, tb]
         if self._r is not None:
             self.r = self.r[lr, tb]
             self.t = self.t[lr, tb]
+
+        self.data = self.data[lr, tb]
 
     def recenter(self):
         """Adjust the x and y coordinates so the data is centered on 0,0 in the FFT sense (contains a zero sample)."""
